@@ -96,7 +96,36 @@ def gen_ops(rng, n_cg, n_fixed, n_secs):
         for ty in ("ssh", "x509", "k8s"):
             for d in (None, "1h", "-600000h", "24h", "24h1ns", "0s"):
                 ops.append(("cg", ty, auth, 86390 if auth == "cert" else 0, "m", d))
+    # sessions that gain a second factor late: password login `age` seconds ago, a real 2FA step-up now, then the
+    # request.  The 24 hours count from the login -- stepping up (again and again) must not restart them.
+    for kind in ("totp", "bootstrap", "direct", "twice"):
+        for age in (54000, 57000, 30000, 3600, 10, 0):
+            ops.append(("seq", "x509", kind, age, "m", None))
+            ops.append(("seq", "ssh", kind, age, "q", "24h"))
+        ops.append(("seq", "k8s", kind, 50000, "m", "1h"))
+    # CA certificates whose own validity starts ahead of (or long before) the clock: unsealed while the clock was
+    # ahead and stepped back since.  What the daemon signs must not depend on that.
+    for off in (3600, 30 * 86400, 5, -3600):
+        ops.append(("ca", off))
+        for ty in ("x509", "k8s", "ssh"):
+            for d in (None, "1h", "0s"):
+                ops.append(("cg", ty, "cookie", 10, "m", d))
+            ops.append(("cg", ty, "cookie", 86000, "m", None))
+        ops.append(("cg", "x509", "basic", 0, "m", "2h"))
+        for kind in ("handler", "direct"):
+            ops.append(("role", kind, None, None, None))
+        ops.append(("role", "refresh", 3600 * NS, "role", None))
+        ops.append(("aws",))
+    ops.append(("ca", 0))
+    n_seq = n_cg // 12
+    for _ in range(n_seq):
+        ops.append(("seq", rng.choice(["ssh", "x509", "k8s"]), rng.choice(["totp", "bootstrap", "direct", "twice"]),
+                    rng.choice([0, 10, 3600, 30000, 50000, 57000, rng.randrange(0, 57600)]), rng.choice(["m", "q"]),
+                    None if rng.random() < 0.4 else (rng.choice(["24h", "1h", "12h", "30m", "0s", "-1h", "25h"]) if rng.random() < 0.7 else gen_duration(rng))))
     while len([o for o in ops if o[0] == "cg"]) < n_cg:
+        if rng.random() < 0.015:
+            ops.append(("ca", rng.choice([0, 0, 5, 3600, 86400, 90 * 86400, -1, -86400])))
+            continue
         ty = rng.choice(["ssh", "ssh", "x509", "k8s"])
         auth = rng.choice(["cookie"] * 7 + ["basic", "cert", "ipcert"])
         d = None if rng.random() < 0.06 else (rng.choice(CORPUS) if rng.random() < 0.2 else gen_duration(rng))
@@ -116,6 +145,7 @@ def gen_ops(rng, n_cg, n_fixed, n_secs):
             k += 1
     for d in ROLE_DURS:
         ops.append(("role", "handler", None, None, d))
+    ops.append(("ca", rng.choice([0, 0, 3600])))
     for i in range(n_fixed):
         kind = ["handler", "refresh", "direct"][i % 3]
         if kind == "refresh":
@@ -148,6 +178,8 @@ def gen_ops(rng, n_cg, n_fixed, n_secs):
 def op_line(o):
     if o[0] == "cg":
         return "cg %s %s %d %s %s" % (o[1], o[2], o[3], o[4], "~" if o[5] is None else c.hexs(o[5]))
+    if o[0] == "seq":
+        return "seq %s %s %d %s %s" % (o[1], o[2], o[3], o[4], "~" if o[5] is None else c.hexs(o[5]))
     if o[0] == "role" and len(o) == 5:
         return "role %s %s %s %s" % (o[1], "-" if o[2] is None else o[2], o[3] or "-", "~" if o[4] is None else c.hexs(o[4]))
     return " ".join(str(x) for x in o)
@@ -178,7 +210,11 @@ def run(ctx):
         ops = gen_ops(ctx.rng, 30000, 300, 400000)
     if ctx.replay:
         rp = json.load(open(ctx.replay))
-        rops = [tuple(v["replay"]["op"]) for v in rp.get("violations", []) if "op" in v.get("replay", {})]
+        rops = []
+        for v in rp.get("violations", []):
+            if "op" in v.get("replay", {}):
+                rops.append(("ca", v["replay"].get("ca", 0)))
+                rops.append(tuple(v["replay"]["op"]))
         ops = rops or ops[:200]
     lines = [op_line(o) for o in ops]
     impl, log, rc = c.run_harness(ctx, "cmd/keymasterd", "C03", lines, timeout=1500)
@@ -189,12 +225,28 @@ def run(ctx):
     # ------------------------------------------------------------ model on the same ops
     mops, canon_impl, jops, jslack = [], [], [], []
     hist, statuses, kinds = {}, {}, {}
+    cur_ca, ca_at, stepup_moved_iat = 0, [], 0
     issued = set()
     float_carry = 0
     for o, line in zip(ops, impl):
         f = line.split()
         kinds[o[0]] = kinds.get(o[0], 0) + 1
-        if o[0] == "cg":
+        if o[0] == "ca":
+            cur_ca = o[1]
+            mops.append("ca %d" % o[1]); canon_impl.append(line); jops.append("ca %d" % o[1]); jslack.append("ca %d" % o[1])
+            ca_at.append(cur_ca)
+            continue
+        ca_at.append(cur_ca)
+        if o[0] == "seq" and not f[0].isdigit() and f[0] != "PANIC":
+            ctx.broken.append("harness: second-factor step-up did not complete for %r: %s" % (o, line))
+            mops.append("ca 0"); canon_impl.append("ok"); jops.append("ca 0"); jslack.append("ca 0")
+            continue
+        if o[0] in ("cg", "seq"):
+            if o[0] == "seq":
+                presented = f[7]
+                f = f[:7]
+                if presented.isdigit() and int(presented) * NS != int(f[2]):
+                    stepup_moved_iat += 1
             status, parsed, iat, tb, ta, va, vb = f
             tb, ta = int(tb), int(ta)
             ilo, ihi = (tb, ta) if iat == "now" else (int(iat), int(iat))
@@ -205,11 +257,11 @@ def run(ctx):
             canon_impl.append("%s %s" % (status, life))
             jops.append("cg %s %s %d %d %d %s %s %s" % (o[1], parsed, ihi, tb, ta, status, va, vb))
             jslack.append("cg %s %s %d %d %d %s %s %s" % (o[1], parsed, ihi + SLACK, tb - SLACK, ta + SLACK, status, va, vb))
-            br = branch(parsed, o[3])
+            br = ("seq:" if o[0] == "seq" else "") + branch(parsed, o[3]) + (":ca-ahead" if cur_ca > 0 and o[1] != "ssh" else "")
             hist[br] = hist.get(br, 0) + 1
             statuses[status] = statuses.get(status, 0) + 1
             if status == "200":
-                issued.add((o[1], o[2], parsed, o[3]))
+                issued.add((o[0], o[1], o[2], parsed, o[3], cur_ca))
         elif o[0] in ("role", "aws"):
             status, chosen, tb, ta, nb, na = f[:6]
             if o[0] == "role" and len(f) == 7:
@@ -274,27 +326,34 @@ def run(ctx):
             if v2 == "ok" and verdicts[i].startswith("viol") and o[0] != "secs":
                 slack_used += 1      # only a wall-clock reading was off by < 2 s
                 continue
+            ca_txt = "" if not ca_at[i] else " under CA certificates whose validity starts %+d s from now" % ca_at[i]
             if o[0] == "cg":
-                key = "%s:duration=%s:age=%d:auth=%s" % (o[1], json.dumps(o[5]), o[3], o[2])
-                what = "POST /certgen/username type=%s duration=%r (parsed %s ns) on a %s credential aged %d s -> %s [%s]" % (
-                    o[1], o[5], impl[i].split()[1], o[2], o[3], verdicts[i], impl[i])
+                key = "%s:duration=%s:age=%d:auth=%s%s" % (o[1], json.dumps(o[5]), o[3], o[2], ":ca=%+d" % ca_at[i] if ca_at[i] else "")
+                what = "POST /certgen/username type=%s duration=%r (parsed %s ns) on a %s credential aged %d s%s -> %s [%s]" % (
+                    o[1], o[5], impl[i].split()[1], o[2], o[3], ca_txt, verdicts[i], impl[i])
+            elif o[0] == "seq":
+                key = "seq:%s:stepup=%s:login-age=%d:duration=%s%s" % (o[1], o[2], o[3], json.dumps(o[5]), ":ca=%+d" % ca_at[i] if ca_at[i] else "")
+                what = ("password login %d s ago, second-factor step-up (%s) now, then POST /certgen/username type=%s duration=%r%s: "
+                        "the bound counts from the login -> %s [%s]" % (o[3], o[2], o[1], o[5], ca_txt, verdicts[i], impl[i]))
             elif o[0] == "secs":
                 key = "secs:%d" % o[1]
                 what = "uint64(time.Duration(%d).Seconds()) = %s breaks the float contract assumed by c03_ssh" % (o[1], impl[i])
             elif o[0] == "role" and len(o) == 5:
-                key = "role:%s:presented=%s:ca=%s:duration=%s" % (o[1], o[2], o[3], json.dumps(o[4]))
-                what = ("POST %s%s%s -> %s [%s]" % (
-                    "/v1/refreshRoleRequestingCert" if o[1] == "refresh" else "/v1/getRoleRequestingCert (%s)" % o[1],
+                key = "role:%s:presented=%s:ca=%s:duration=%s%s" % (o[1], o[2], o[3], json.dumps(o[4]), ":cacert=%+d" % ca_at[i] if ca_at[i] else "")
+                what = ("POST %s%s%s%s -> %s [%s]" % (
+                    "/v1/refreshRoleRequestingCert" if o[1] == "refresh" else "/v1/getRoleRequestingCert (%s)" % o[1], ca_txt,
                     " presenting an IP-restricted certificate valid for %s s issued by %s" % (int(o[2]) // NS, "another client CA" if o[3] == "ext" else "the role CA") if o[1] == "refresh" else "",
                     " with form duration=%r" % o[4] if o[4] is not None else "", verdicts[i], impl[i]))
             else:
                 key = ":".join(str(x) for x in o)
-                what = "%s -> %s [%s]" % (" ".join(str(x) for x in o), verdicts[i], impl[i])
-            c.add_violation(ctx, key, what, {"op": list(o), "line": lines[i], "impl": impl[i],
+                if ca_at[i]:
+                    key += ":cacert=%+d" % ca_at[i]
+                what = "%s%s -> %s [%s]" % (" ".join(str(x) for x in o), ca_txt, verdicts[i], impl[i])
+            c.add_violation(ctx, key, what, {"op": list(o), "ca": ca_at[i], "line": lines[i], "impl": impl[i],
                                              "model": model[i] if i < len(model) else None, "judge": verdicts[i]})
     n_cg = kinds.get("cg", 0)
     ctx.coverage.update({
-        "evaluations": n_cg + kinds.get("role", 0) + kinds.get("aws", 0),
+        "evaluations": n_cg + kinds.get("seq", 0) + kinds.get("role", 0) + kinds.get("aws", 0),
         "float_step_evaluations": kinds.get("secs", 0), "float_carry_by_one_outside_exact_range": float_carry,
         "distinct_nontrivial": len(issued),
         "rule": "requests to the real certGenHandler (ssh/x509/x509-kubernetes x cookie/basic/client-cert/IP-cert credential x "
@@ -302,6 +361,8 @@ def run(ctx):
                 "non-trivial = distinct (type, credential kind, parsed duration, credential age) that ended in an issued certificate "
                 "whose validity window was decoded and judged",
         "branch_histogram": hist, "status_histogram": statuses, "op_kinds": kinds,
+        "stepup_sequences": kinds.get("seq", 0), "stepups_that_changed_the_cookie_iat": stepup_moved_iat,
+        "ca_certificate_shifts": kinds.get("ca", 0),
         "judged": len(jops), "judged_failures": len(ctx.violations), "needed_clock_slack": slack_used,
         "disagreements": len(dis), "issued_lifetime_predicted_exactly": exact_pred,
         "generated_shape": facts.get("c03", {}).get("shape"),
